@@ -3,6 +3,7 @@ package harness
 import (
 	"math"
 	"strconv"
+	"strings"
 
 	at "github.com/DanielSvub/anytype"
 	"pgregory.net/rapid"
@@ -21,6 +22,7 @@ type C07Case struct {
 func equalityTreeCfg() TreeCfg {
 	cfg := DefaultTreeCfg()
 	cfg.MaxStr = 5
+	cfg.LongLists = true
 	cfg.KeyGen = func(t *rapid.T) string {
 		return []string{"a", "b", "c", "", "k.1", "é", "key"}[drawIdx(t, 7, "key")]
 	}
@@ -35,6 +37,9 @@ func editTree(t *rapid.T, v V, depth int, cfg TreeCfg) (V, string) {
 	case KList:
 		if len(v.L) > 0 && drawInt(t, 0, 9, "descend") < 6 {
 			i := drawIdx(t, len(v.L), "child")
+			if len(v.L) > 20 && drawBool(t, "tail") {
+				i = len(v.L) - 1 - drawInt(t, 0, 3, "fromend") // long lists: edit near the end
+			}
 			out := v.Clone()
 			e, what := editTree(t, v.L[i], depth+1, cfg)
 			out.L[i] = e
@@ -87,6 +92,9 @@ func editTree(t *rapid.T, v V, depth int, cfg TreeCfg) (V, string) {
 			if i, err := strconv.Atoi(v.S); err == nil {
 				return VInt(i), "kind_change_string_int" + d
 			}
+		}
+		if up := strings.ToUpper(v.S); up != v.S && drawBool(t, "case") {
+			return VStr(up), "value_change_case_only" + d
 		}
 		return VStr(v.S + "x"), "value_change" + d
 	case KList:
